@@ -4468,6 +4468,9 @@ def bundle_recovery(P, R, L):
                               "versioning::version_set::VersionSet::recover", "versioning::version_set::VersionSet::maybe_reuse_manifest",
                               "logs::LogReader::", "<batch::Batch as std::convert::TryFrom"])
     R.once(grd24_reuse_adopts_number_with_file, P, R, L)
+    from . import blind
+    R.clause("ORD-23", "a completely read log fragment is counted in the reader's cursor and block offset before it is parsed")
+    R.once(blind.ord23_reader_position_follows_the_file, P, R, L)
 
 
 def bundle_filter(P, R, L):
